@@ -1880,12 +1880,15 @@ impl Typer {
                 let name = &hint;
                 let mut args_tast = Vec::new();
                 let mut arg_types = Vec::new();
-                for arg in args.iter() {
-                    let arg_tast = self.infer_expr(genv, local_env, diagnostics, *arg);
-                    arg_types.push(arg_tast.get_ty());
-                    args_tast.push(arg_tast);
+                let func_ty = lookup_function_type_by_hint(genv, name.as_str());
+                if !args_are_checked_against_params(func_ty.as_ref(), args.len()) {
+                    for arg in args.iter() {
+                        let arg_tast = self.infer_expr(genv, local_env, diagnostics, *arg);
+                        arg_types.push(arg_tast.get_ty());
+                        args_tast.push(arg_tast);
+                    }
                 }
-                if let Some(func_ty) = lookup_function_type_by_hint(genv, name.as_str()) {
+                if let Some(func_ty) = func_ty {
                     let inst_ty = self.inst_ty(&func_ty);
                     if let tast::Ty::TFunc { params, .. } = &inst_ty
                         && params.len() == args.len()
@@ -1975,10 +1978,12 @@ impl Typer {
                 {
                     let mut args_tast = Vec::new();
                     let mut arg_types = Vec::new();
-                    for arg in args.iter() {
-                        let arg_tast = self.infer_expr(genv, local_env, diagnostics, *arg);
-                        arg_types.push(arg_tast.get_ty());
-                        args_tast.push(arg_tast);
+                    if !args_are_checked_against_params(Some(&func_ty), args.len()) {
+                        for arg in args.iter() {
+                            let arg_tast = self.infer_expr(genv, local_env, diagnostics, *arg);
+                            arg_types.push(arg_tast.get_ty());
+                            args_tast.push(arg_tast);
+                        }
                     }
 
                     let inst_ty = self.inst_ty(&func_ty);
@@ -3199,6 +3204,13 @@ fn lookup_function_path(genv: &PackageTypeEnv, path: &hir::Path) -> Option<(Stri
         );
         None
     }
+}
+
+fn args_are_checked_against_params(func_ty: Option<&tast::Ty>, arg_count: usize) -> bool {
+    matches!(
+        func_ty,
+        Some(tast::Ty::TFunc { params, .. }) if params.len() == arg_count && !params.is_empty()
+    )
 }
 
 fn lookup_function_type_by_hint(genv: &PackageTypeEnv, hint: &str) -> Option<tast::Ty> {
